@@ -948,16 +948,14 @@ def reduce_(a, kind, axis=None, dtype=None, keepdims=False):
                 tb = _f(lambda v, _g=g: e_or(e_not(_g), v), 1, 1)(tb)
             acc = EW2["and"](acc, tb)
         else:
-            if guard_axis0:
-                raise HarnessError("max/min over a symbolic-length axis")
             if acc is None:
-                acc = term
+                acc = term        # (an empty symbolic-length axis is the caller's business: numpy would raise)
             else:
-                # numpy max/min propagate NaN
-                def mm(p, q, _k=kind):
+                # numpy max/min propagate NaN; rows beyond a symbolic length are skipped
+                def mm(p, q, _k=kind, _g=g):
                     r = S.e_max(p, q) if _k == "max" else S.e_min(p, q)
                     r = e_ite(e_isnan(p), p, e_ite(e_isnan(q), q, r))
-                    return r
+                    return r if _g is True else e_ite(_g, r, p)
                 acc = _f(mm, 2, 1)(acc, term)
     if not isinstance(acc, rnp.ndarray):
         acc = _fill_obj((), acc)
